@@ -1,4 +1,5 @@
 """C16 — CML molecules load faithfully (Atoms.load_cml, Atoms.load(path), Atoms.load(file, filetype="cml"))."""
+import io
 import os
 import pathlib
 import tempfile
@@ -12,14 +13,18 @@ RULE = ("generated CML documents of the Avogadro flavour written as REAL XML fil
         "a1…an, the same ids shuffled / reversed / offset, arbitrary strings (digits only, punctuation, XML-escaped "
         "characters, non-ASCII); bond lists: empty (with an empty <bondArray/> or without the element), sparse, dense, "
         "with repeated bonds; coordinates of any sign and magnitude (0, ±tiny, ±huge, dyadic, random) written with repr; "
-        "layout variations (XML declaration, extra attributes, attribute order, wrapping <cml> element, indentation). "
+        "layout variations (XML declaration, extra attributes, attribute order, wrapping <cml> element, indentation, a foreign "
+        "propertyList element); NAMESPACE layouts: none, default xmlns (Open Babel), default + the xmlns:cml/units/xsd/iupac "
+        "declarations of Avogadro 2, cml: prefix on every element, prefix on the atom entries only, a default namespace "
+        "scoped to <atomArray>, a non-CML default namespace. "
         "Each file is loaded by Atoms.load(path), Atoms.load(pathlib.Path), Atoms.load(open file, filetype='cml') and "
         "Atoms.load_cml(path), and with every keyword of the loaders at non-default values (verbose=True/False by keyword and "
-        "positionally, explicit filetype='cml' on a path with another extension, load_cml(f=…), load_cml(open file)) — all "
+        "positionally, explicit filetype='cml' on a path with another extension, load_cml(f=…), load_cml(open file), binary file / BytesIO / StringIO handles) — all "
         "results must be identical; a RELOAD stream writes consecutive different documents to ONE reused path and loads it again "
         "(str and pathlib.Path), every other time after modifying the previously returned Atoms in place (positions += 1), "
         "and compares each load with the document and with the open-file load; a separate malformed stream has unknown references / unknown elements / no atoms / "
-        "repeated ids. Non-trivial = distinct well-formed document that has no bond at all, or has a bond one of "
+        "repeated ids / an atom lacking one attribute / a bond with 0, 1 or 3 references / a bond without order (compared "
+        "with the model's rejections). Non-trivial = distinct well-formed document that has no bond at all, or has a bond one of "
         "whose references is not the id a<position+1> of the atom it names.")
 
 ELEMENT_POOL = None
@@ -108,7 +113,8 @@ def rand_doc(rng, n=None, scheme=None, bonds=None):
     bl = [{"refs": [ids[i], ids[j]], "order": rng.choice(["1", "1", "2", "3", "1.5"])} for i, j in pairs]
     layout = {"decl": rng.random() < 0.3, "wrap": rng.random() < 0.15, "extra": rng.random() < 0.5,
               "order": rng.random() < 0.2, "indent": rng.choice([" ", "  ", "\t", ""]),
-              "bond_array": style != "none-no-array"}
+              "bond_array": style != "none-no-array", "ns": rng.choice(NS_MODES + [None, "default+extras"]),
+              "foreign": rng.random() < 0.2}
     return {"atoms": atoms, "bonds": bl, "bond_idx": pairs, "scheme": scheme, "bond_style": style, "layout": layout}
 
 
@@ -117,40 +123,107 @@ def fnum(qs):
     return repr(float(Fraction(qs)))
 
 
-def xml_of(doc):
+CML_NS = "http://www.xml-cml.org/schema"
+AVOGADRO2_XMLNS = [("xmlns:cml", "http://www.xml-cml.org/dict/cml"), ("xmlns:units", "http://www.xml-cml.org/units/units"),
+                   ("xmlns:xsd", "http://www.w3c.org/2001/XMLSchema"), ("xmlns:iupac", "http://www.iupac.org")]
+NS_MODES = [None, "default", "default+extras", "prefix", "mixed-prefix", "scoped-default", "foreign-default"]
+
+
+def tree_of(doc):
+    """the document as a neutral element tree: node = [prefix or None, local name, attributes (incl. xmlns declarations),
+    children].  Namespace layouts (layout["ns"]):
+      None              no namespace anywhere (the repository's own files)
+      default           xmlns="http://www.xml-cml.org/schema" on the outermost element (Open Babel)
+      default+extras    the same plus the xmlns:cml / units / xsd / iupac declarations Avogadro 2 writes
+      prefix            xmlns:cml=<schema> on the outermost element, EVERY element written cml:…
+      mixed-prefix      the same declaration, atomArray / atom written cml:…, everything else unprefixed (no namespace)
+      scoped-default    xmlns=<schema> declared on <atomArray> only: atoms are in the namespace, bonds are not
+      foreign-default   a default namespace that is not CML's"""
     lay = doc.get("layout", {})
-    ind = lay.get("indent", " ")
-    out = []
-    if lay.get("decl"):
-        out.append('<?xml version="1.0" encoding="UTF-8"?>')
-    if lay.get("wrap"):
-        out.append("<cml>")
-    out.append('<molecule formalCharge="0">' if lay.get("extra") else "<molecule>")
-    out.append(ind + "<atomArray>")
+    ns = lay.get("ns")
+    pre_all = "cml" if ns == "prefix" else None
+    pre_atoms = "cml" if ns in ("prefix", "mixed-prefix") else None
+    atoms = []
     for k, a in enumerate(doc["atoms"]):
-        at = [("id", a["id"]), ("elementType", a["el"])]
+        at = [("id", a.get("id")), ("elementType", a.get("el"))]
         if lay.get("extra") and k % 3 == 0:
             at.append(("formalCharge", "1"))
-        at += [("x3", fnum(a["pos"][0])), ("y3", fnum(a["pos"][1])), ("z3", fnum(a["pos"][2]))]
-        if lay.get("order"):
-            at = at[::-1]
-        out.append(ind * 2 + "<atom " + " ".join("%s=%s" % (k2, quoteattr(v)) for k2, v in at) + "/>")
-    out.append(ind + "</atomArray>")
+        pos = a.get("pos") or [None, None, None]
+        at += [("x3", None if pos[0] is None else fnum(pos[0])), ("y3", None if pos[1] is None else fnum(pos[1])),
+               ("z3", None if pos[2] is None else fnum(pos[2]))]
+        at = [(k2, v) for k2, v in at if v is not None]
+        atoms.append([pre_atoms, "atom", at[::-1] if lay.get("order") else at, []])
+    aa_attrs = [("xmlns", CML_NS)] if ns == "scoped-default" else []
+    children = [[pre_atoms, "atomArray", aa_attrs, atoms]]
     if doc["bonds"] or lay.get("bond_array", True):
-        if doc["bonds"]:
-            out.append(ind + "<bondArray>")
-            for b in doc["bonds"]:
-                at = [("atomRefs2", " ".join(b["refs"])), ("order", b["order"])]
-                if lay.get("order"):
-                    at = at[::-1]
-                out.append(ind * 2 + "<bond " + " ".join("%s=%s" % (k2, quoteattr(v)) for k2, v in at) + "/>")
-            out.append(ind + "</bondArray>")
-        else:
-            out.append(ind + "<bondArray/>")
-    out.append("</molecule>")
-    if lay.get("wrap"):
-        out.append("</cml>")
-    return "\n".join(out) + "\n"
+        bonds = []
+        for b in doc["bonds"]:
+            at = [("atomRefs2", None if b.get("refs") is None else " ".join(b["refs"])), ("order", b.get("order"))]
+            at = [(k2, v) for k2, v in at if v is not None]
+            bonds.append([pre_all, "bond", at[::-1] if lay.get("order") else at, []])
+        children.append([pre_all, "bondArray", [], bonds])
+    if lay.get("foreign"):
+        children.append([None, "propertyList", [("xmlns", "urn:verif:other")], [[None, "property", [("title", "atom")], []]]])
+    mol = [pre_all, "molecule", [("formalCharge", "0")] if lay.get("extra") else [], children]
+    root = [pre_all, "cml", [], [mol]] if lay.get("wrap") else mol
+    decl = []
+    if ns in ("default", "default+extras"):
+        decl = [("xmlns", CML_NS)] + (AVOGADRO2_XMLNS if ns == "default+extras" else [])
+    elif ns in ("prefix", "mixed-prefix"):
+        decl = [("xmlns:cml", CML_NS)]
+    elif ns == "foreign-default":
+        decl = [("xmlns", "urn:verif:not-cml")]
+    root[2] = decl + root[2]
+    return root
+
+
+def render(node, ind, depth, out, default, prefixes, elems, is_root):
+    """serialise `node`; in passing, record for every NON-ROOT element its namespace URI (worked out here from the
+    declarations in scope, independently of ElementTree), local name and the attributes the loader reads"""
+    pre, loc, attrs, children = node
+    prefixes = dict(prefixes)
+    for k, v in attrs:
+        if k == "xmlns":
+            default = v
+        elif k.startswith("xmlns:"):
+            prefixes[k[6:]] = v
+    uri = prefixes[pre] if pre else default
+    if not is_root:
+        rec = {"ns": uri, "loc": loc}
+        d = dict(attrs)
+        for src, dst in (("id", "id"), ("elementType", "el")):
+            if src in d:
+                rec[dst] = d[src]
+        for c in ("x3", "y3", "z3"):
+            if c in d:
+                rec[c] = core.q(float(d[c]))
+        if "atomRefs2" in d:
+            rec["refs"] = d["atomRefs2"].split()
+        if "order" in d:
+            rec["order"] = core.q(float(d["order"]))
+        elems.append(rec)
+    tag = (pre + ":" if pre else "") + loc
+    head = ind * depth + "<" + tag + "".join(" %s=%s" % (k, quoteattr(v)) for k, v in attrs)
+    if not children:
+        out.append(head + "/>")
+    else:
+        out.append(head + ">")
+        for c in children:
+            render(c, ind, depth + 1, out, default, prefixes, elems, False)
+        out.append(ind * depth + "</" + tag + ">")
+
+
+def xml_and_elems(doc):
+    lay = doc.get("layout", {})
+    out, elems = [], []
+    if lay.get("decl"):
+        out.append('<?xml version="1.0" encoding="UTF-8"?>')
+    render(tree_of(doc), lay.get("indent", " "), 0, out, None, {}, elems, True)
+    return "\n".join(out) + "\n", elems
+
+
+def xml_of(doc):
+    return xml_and_elems(doc)[0]
 
 
 # ------------------------------------------------------------------ the real code
@@ -200,6 +273,16 @@ def real_loads(doc, tmpdir, name):
             with open(path, "r", encoding="utf-8") as fh:
                 return Atoms.load_cml(fh, verbose=True)
         res["load_cml(open file) verbose=True"] = _res(by_file_direct)
+        # binary and in-memory handles (ElementTree takes them; the dispatcher needs filetype= for them)
+        data = open(path, "rb").read()
+
+        def by_binary():
+            with open(path, "rb") as fh:
+                return Atoms.load(fh, filetype="cml")
+        res["binary file filetype='cml'"] = _res(by_binary)
+        res["BytesIO filetype='cml'"] = _res(lambda: Atoms.load(io.BytesIO(data), filetype="cml"))
+        res["StringIO filetype='cml'"] = _res(lambda: Atoms.load(io.StringIO(data.decode("utf-8")), filetype="cml"))
+        res["load_cml(BytesIO)"] = _res(lambda: Atoms.load_cml(io.BytesIO(data)))
     finally:
         os.remove(path)
         os.remove(other)
@@ -266,9 +349,9 @@ def oracle(doc, res):
 
 
 def wire(doc):
-    """the document as the model reads it (the bond order crosses as the exact rational `float(order)` is)"""
-    return {"op": "cml", "atoms": doc["atoms"],
-            "bonds": [{"refs": b["refs"], "order": core.q(float(b["order"]))} for b in doc["bonds"]]}
+    """the document as the model reads it: every non-root element in document order with its namespace URI, local name
+    and loader-relevant attributes (coordinates / order as the exact rationals `float(text)` gives)"""
+    return {"op": "cml_doc", "elems": xml_and_elems(doc)[1]}
 
 
 def is_nontrivial(doc):
@@ -282,13 +365,26 @@ def is_nontrivial(doc):
 def malformed(rng):
     """(kind, document) outside the property's quantifier: compared with the model only"""
     doc = rand_doc(rng, n=rng.randint(2, 8), bonds="sparse")
-    kind = rng.choice(["unknown-ref", "unknown-element", "no-atoms", "repeated-id"])
+    kind = rng.choice(["unknown-ref", "unknown-element", "no-atoms", "repeated-id", "missing-attribute", "refs-count", "no-order"])
     if kind == "unknown-ref":
         doc["bonds"][rng.randrange(len(doc["bonds"]))]["refs"][rng.randrange(2)] = "nosuchatom"
     elif kind == "unknown-element":
         doc["atoms"][rng.randrange(len(doc["atoms"]))]["el"] = rng.choice(["Xx", "D", "c", "ZR", ""])
     elif kind == "no-atoms":
         doc["atoms"], doc["bonds"], doc["bond_idx"] = [], [], []
+    elif kind == "missing-attribute":
+        a = doc["atoms"][rng.randrange(len(doc["atoms"]))]
+        which = rng.choice(["id", "el", "x", "y", "z"])
+        if which in ("id", "el"):
+            del a[which]
+        else:
+            a["pos"] = list(a["pos"])
+            a["pos"]["xyz".index(which)] = None
+    elif kind == "refs-count":
+        b = doc["bonds"][rng.randrange(len(doc["bonds"]))]
+        b["refs"] = rng.choice([b["refs"][:1], b["refs"] + b["refs"][:1], []])
+    elif kind == "no-order":
+        doc["bonds"][rng.randrange(len(doc["bonds"]))]["order"] = None
     else:
         i, j = rng.sample(range(len(doc["atoms"])), 2)
         doc["atoms"][j]["id"] = doc["atoms"][i]["id"]
@@ -301,6 +397,13 @@ def run(ctx, oracle_only=False):
     ops, impls = [], []
     with tempfile.TemporaryDirectory(prefix="verif_c16_") as tmp:
         docs = []
+        # corpus first: the stored minimal replays of past findings (corpus/C16/*.json)
+        import glob
+        import json
+        for f in sorted(glob.glob(os.path.join(core.VERIF, "corpus", "C16", "*.json"))):
+            ci = json.load(open(f))["input"]
+            docs.append({"atoms": ci["atoms"], "bonds": ci["bonds"], "bond_idx": ci["bond_idx"], "layout": ci.get("layout", {}),
+                         "scheme": "corpus:" + os.path.basename(f)[:-5], "bond_style": "corpus"})
         # fixed corner documents first: one atom, no bonds (the documented single-metal case), every id scheme
         docs.append(rand_doc(rng, n=1, scheme="seq", bonds="none"))
         docs.append(rand_doc(rng, n=1, scheme="arbitrary", bonds="none-no-array"))
@@ -312,10 +415,11 @@ def run(ctx, oracle_only=False):
             docs.append(rand_doc(rng))
         for k, doc in enumerate(docs):
             res = real_loads(doc, tmp, "d%d" % k)
-            inp = dict(wire(doc), bonds=doc["bonds"], bond_idx=doc["bond_idx"], layout=doc["layout"], scheme=doc["scheme"])
+            inp = dict(wire(doc), atoms=doc["atoms"], bonds=doc["bonds"], bond_idx=doc["bond_idx"], layout=doc["layout"], scheme=doc["scheme"])
             ctx.case(inp, nontrivial=is_nontrivial(doc))
             ctx.count("ids:" + doc["scheme"])
             ctx.count("bonds:" + doc["bond_style"])
+            ctx.count("xmlns:%s" % doc["layout"].get("ns"))
             ctx.count("atoms:%s" % ("1" if len(doc["atoms"]) == 1 else "2-10" if len(doc["atoms"]) <= 10 else "11-40"))
             bad = oracle(doc, res)
             if bad:
@@ -331,7 +435,7 @@ def run(ctx, oracle_only=False):
             doc = rand_doc(rng, n=rng.choice([1, 1, 2, 3, 5, 8, 13, 21]))
             mutate = (k % 2 == 1)
             res = real_reload(doc, reused, mutate)
-            inp = dict(wire(doc), bonds=doc["bonds"], bond_idx=doc["bond_idx"], layout=doc["layout"], scheme=doc["scheme"],
+            inp = dict(wire(doc), atoms=doc["atoms"], bonds=doc["bonds"], bond_idx=doc["bond_idx"], layout=doc["layout"], scheme=doc["scheme"],
                        reload={"mutate": mutate, "previous": None if prev is None else
                                {"atoms": prev["atoms"], "bonds": prev["bonds"], "layout": prev["layout"]}})
             ctx.case(inp, nontrivial=True)
@@ -351,7 +455,7 @@ def run(ctx, oracle_only=False):
             res = real_loads(doc, tmp, "m%d" % k)
             ctx.count("malformed:" + kind)
             ctx.count("malformed-outcome:" + ("loaded" if "ok" in res["path"] else res["path"]["err"]))
-            inp = dict(wire(doc), bonds=doc["bonds"], malformed=kind)
+            inp = dict(wire(doc), atoms=doc["atoms"], bonds=doc["bonds"], layout=doc["layout"], malformed=kind)
             ctx.case(inp, nontrivial=False)
             for way in res:
                 if res[way] != res["path"]:
